@@ -10,6 +10,11 @@ pub uninterp spec fn str_lower(s: Seq<char>) -> Seq<char>;
 pub assume_specification [str::to_lowercase] (s: &str) -> (r: String)
     ensures r@ == str_lower(s@);
 
+// TRUSTED[str-to-lowercase-ascii-fixed]: a text of ASCII characters without upper-case letters is its own lower-case form (std doc: to_lowercase
+// changes a character only if it has the Unicode Uppercase property; among ASCII these are 'A'..='Z').
+pub axiom fn axiom_str_lower_ascii_fixed(s: Seq<char>)
+    requires forall|i: int| 0 <= i < s.len() ==> (#[trigger] s[i] as u32) < 128 && !('A' <= s[i] && s[i] <= 'Z')
+    ensures str_lower(s) == s;
 
 }
 }
